@@ -44,7 +44,11 @@ func typeOf(rt reflect.Type, lv int) *types.Type {
 		panic("max nested depth exceeded")
 	}
 
-	for rt.Kind() == reflect.Pointer {
+	// type P *P 这样的类型解引用永远得不到非指针类型
+	for n := 0; rt.Kind() == reflect.Pointer; n++ {
+		if n > maxLevel {
+			panic("max nested depth exceeded")
+		}
 		rt = rt.Elem()
 	}
 	if rt == typeOfTime {
